@@ -310,6 +310,15 @@ def candidate_random(rng, count, it_rng=True):
         rev = rng.randrange(2)
         if rev:
             Q = mirror(Q)  # the '-' strand query whose mirrored labels fall on the same diagonal
+        # coincident labels (two sites at one coordinate) are legal CMAP input; at most one of the twins can be paired with
+        # a given label of the other molecule, the other one stays an unpaired label inside the segment
+        if rng.random() < 0.15 and len(R) > 4:
+            for _ in range(rng.randrange(1, 3)):
+                j = rng.randrange(1, len(R) - 1)
+                R = R[:j] + [R[j]] + R[j:]
+        if rng.random() < 0.15 and len(Q) > 3:
+            j = rng.randrange(1, len(Q) - 1)
+            Q = Q[:j] + [Q[j]] + Q[j:]
         peaks = ladder(rng, off)
         mult = rng.choice(["1", "1", "1/2", "2", "0"])
         var = rng.choice([0, 0, 1])
@@ -330,6 +339,12 @@ def candidate_lattice(rng, count):
         nq = rng.randrange(3, 8)
         Q = sorted(rng.sample(range(0, 18), nq))
         Q = [q - Q[0] for q in Q]
+        if rng.random() < 0.2:       # coincident labels
+            j = rng.randrange(0, len(R))
+            R = R[:j] + [R[j]] + R[j:]
+        if rng.random() < 0.2:
+            j = rng.randrange(0, len(Q))
+            Q = Q[:j] + [Q[j]] + Q[j:]
         rev = rng.randrange(2)
         md = rng.choice([1, 1, 2])
         P = {"sp": 10, "dp": rng.choice([1, 2, 4]), "su": rng.choice([-1, -2, -3]), "md": md,
